@@ -9,12 +9,16 @@ Require Import TT.Model.Str TT.Model.TypeParse TT.Spec.TsType TT.Model.Render TT
 Require Import TT.Spec.C05Spec TT.Spec.C05Known TT.Spec.C18Spec TT.Spec.C18Known.
 Require Import TT.Model.C05Parse TT.Proofs.C05ParseProofs.
 Require Import TT.Proofs.TypeParseProofs TT.Proofs.RenderProofs TT.Proofs.C05Proofs TT.Proofs.C05Sweep TT.Proofs.C05Examples TT.Proofs.C18Proofs.
+Require Import TT.Proofs.C05PrefixProofs TT.Proofs.C05OracleProofs.
 Import ListNotations.
 Local Open Scope string_scope.
 
-(* Not asserted: substitution at every site in both modes. Refuted without the class premise
-   (C18_prefix_on_target_refuted); proved at the unqualified TypeScript sites for all inputs
-   (C18_subst_plain) and on bounded sweeps of the model for the other sites (C18_sweep_depth1_partial). *)
+(* Not asserted as a whole: substitution (both clauses of the oracle) at every site in both modes.
+   After the repairs no class of C18 is left (kf_C18 is constantly false). PROVED for all inputs: the
+   frame clause at every site (C18_frame) and the absolute clause at the 8 site x mode pairs whose text is
+   a TypeScript type (C18_subst_ts_sites, premise: outside C05's remaining classes). The relational
+   token-level clause where a key is mentioned, and the two Zod schema sites, rest on bounded sweeps of
+   the model (C18_sweep_depth1_partial; depth 2 in Proofs/C18Sweep2.v) and the run-time oracle. *)
 Definition C18_subst_full_statement : Prop :=
   forall (s : site) (md : mode) (m : mapping) (t : rty),
     mapping_ok m -> dom_m m t = true -> kf_C18 s md m t = false ->
@@ -45,6 +49,22 @@ Theorem C18_subst_plain : forall m t, mapping_ok m -> dom_m m t = true -> kf_uni
   exists text, emit_type s md m t = Some text /\
                observe (site_is_type s md) text = Some (expected s m t).
 Proof. exact sound_plain. Qed.
+
+(* ... and the same at EVERY site whose text is a TypeScript type (return types and event payloads
+   through add_types_prefix included; 8 of the 10 site x mode pairs), for all types, tables with targets
+   among string/number/boolean/void, and depths: outside C05's remaining classes the text printed with
+   the table denotes the shape in which every mapped name, map keys included, is its target. This is
+   the absolute clause of the oracle (c18_abs_ok) as a theorem. *)
+Theorem C18_subst_ts_sites : forall m t s md, mapping_ok m -> targets_ok m -> dom_m m t = true ->
+  site_is_type s md = true -> kf_C05 s md m t = false ->
+  exists text, emit_type s md m t = Some text /\
+               observe (site_is_type s md) text = Some (expected s m t).
+Proof. intros m t s md. apply sound_ts_sites. Qed.
+
+(* the absolute clause of the run-time oracle is exactly that statement *)
+Theorem C18_abs_oracle_exact : forall s md m t text, dom_m m t = true -> kf_C05 s md m t = false ->
+  (c18_abs_ok s md m t text = true <-> observe (site_is_type s md) text = Some (expected s m t)).
+Proof. intros s md m t text Hd Hk. unfold c18_abs_ok. rewrite Hd, Hk. cbn [negb orb]. apply c05_oracle_exact. Qed.
 
 (* All five sites, both modes, every constructor spine to depth 1 over String, i32, PathBuf, Uuid,
    DateTime<Utc>, User, table PathBuf->string, Uuid->number, DateTime<Utc>->boolean.
@@ -99,8 +119,8 @@ Example C18_subst_plain_premises :
   emit_type SParam MNone table18 ex18 = Some (L "Record<string, [string | null, boolean, User][]>") /\
   emit_type SParam MNone [] ex18 = Some (L "Record<string, [PathBuf | null, DateTime<Utc>, User][]>").
 Proof. vm_compute. repeat split; reflexivity. Qed.
-Example C18_mapping_ok_table : mapping_ok table18.
-Proof. repeat constructor; discriminate. Qed.
+Example C18_mapping_ok_table : mapping_ok table18 /\ targets_ok table18.
+Proof. split; repeat constructor; discriminate. Qed.
 (* frame: the table maps Uuid only, the type mentions PathBuf and User *)
 Example C18_frame_premises :
   let m := [(L "Uuid", L "number")] in
@@ -119,6 +139,8 @@ Print Assumptions C18_frame.
 Print Assumptions C18_frame_type.
 Print Assumptions C18_render_subst.
 Print Assumptions C18_subst_plain.
+Print Assumptions C18_subst_ts_sites.
+Print Assumptions C18_abs_oracle_exact.
 Print Assumptions C18_sweep_depth1_partial.
 Print Assumptions C18_sweep_domain_depth1_partial.
 Print Assumptions C18_prefix_on_target_repaired.
